@@ -427,3 +427,37 @@ def rule_sweep_memory(ctx, sites, rule="sweep-memory"):
                 r.ok(f"{construct}[{k}]", sample={"site": qual, "memory": k, "skip": f"{skip_kw} = {src_of(E)[:80]}", "scope": "attribute" if persistent else "local"})
     r.floor(n_mem, len(sites), "sweep-memory variables")
     return r
+
+
+def rule_sandwich_orientation(ctx):
+    r = RuleResult(
+        "sandwich-orientation",
+        "DMRG's energy network <bra|H|ket>: tensor_network_align stacks its arguments top to bottom and gives an operator in "
+        "the middle its *upper* (row) indices from the network above and its *lower* (column) indices from the network below, "
+        "so the first argument of the alignment must be the conjugated state (bra) and the last the ket; with the ket first "
+        "the contraction is <psi|H^T|psi> and DMRG minimises over H^T — the right energy (same spectrum) but, for a complex "
+        "Hermitian H, the wrong state",
+    )
+    cls = ctx.prog.cls("quimb.tensor.tn1d.dmrg", "DMRG")
+    init = cls.methods["__init__"]
+    where = f"{init.module.relpath}:{init.lineno}"
+    aligns = [c for c in ast.walk(init.node) if isinstance(c, ast.Call) and isinstance(c.func, ast.Attribute) and c.func.attr in ("align_", "align")]
+    if not aligns:
+        raise AnalysisError("DMRG.__init__: alignment call not found")
+    c = aligns[0]
+    seq = [src_of(c.func.value)] + [src_of(a) for a in c.args]
+    # which attribute is the conjugated state?
+    conj = set()
+    for a in ast.walk(init.node):
+        if isinstance(a, ast.Assign) and any(isinstance(x, ast.Attribute) and x.attr == "H" or (isinstance(x, ast.Call) and getattr(x.func, "attr", None) == "conj") for x in ast.walk(a.value)):
+            conj |= {src_of(t) for t in a.targets}
+    if not conj:
+        raise AnalysisError("DMRG.__init__: conjugated state not identified")
+    first_is_bra, last_is_bra = seq[0] in conj, seq[-1] in conj
+    if first_is_bra and not last_is_bra:
+        r.ok("DMRG.__init__[align]", sample={"alignment (top to bottom)": seq, "bra": sorted(conj)})
+    else:
+        r.bad(Finding("sandwich-orientation", "DMRG.__init__",
+                      f"the energy network is aligned as {seq} (top to bottom): the operator's row indices meet {seq[0]} and its column indices {seq[-1]}, but the conjugated "
+                      f"state is {sorted(conj)}: the sandwich evaluates <psi|H^T|psi>", where=f"{init.module.relpath}:{c.lineno}", operand="ket-on-rows"))
+    return r
